@@ -230,6 +230,33 @@ def run(ctx):
             ctx.analysed(name, 1)
             cons = discipline.consumers(f2, bi)
             callee = (t.get('r') or t['fd'])
+            # error mappers on the way: `may_cancel(..).map_err(|e| Error::Other(..))?` re-labels EVERY error, the cancellation included
+            for mb, mt in f2.calls():
+                if not re.search(r'Result::<T, E>::(map_err|or_else)$', mt['fd']) or not mt['args']:
+                    continue
+                if not any(o == ('call', bi) or (o[0] == 'field' and o[1] == ('call', bi)) for o in f2.origins(mt['args'][0])):
+                    continue
+                cl = None
+                for a in mt['args'][1:]:
+                    if 'l' in a and f2.locals[a['l']].get('closure'):
+                        cl = f2.locals[a['l']]['closure']
+                if cl is None or not prog.has(cl):
+                    fnitem = [T.op_term(f2, a) for a in mt['args'][1:]]
+                    okm = any(re.search(r'From::from|Into::into|fn:', x) for x in fnitem)
+                    ctx.ob('C23-D1', name, callee, 'map_err', okm, detail='mapped by %s' % fnitem, site=loc(mt['span']), nontrivial=False)
+                    continue
+                cfn = prog.fn(cl)
+                inspects = any(b['t']['k'] == 'switch' for b in cfn.B)
+                builds = [rv.get('variant') for b in cfn.B for dst, rv in b['s'] if rv['k'] == 'agg' and str(rv.get('adt', '')).endswith('error::Error')]
+                returns_param = not builds
+                okm = inspects or returns_param or builds == ['OperationCancelled']
+                base = 'C23-D1|%s|%s|map_err' % (name, callee)
+                if not okm and base in TABLED:
+                    ctx.ob('C23-D1', name, callee, 'map_err', True, detail='tabled: ' + TABLED[base], site=loc(mt['span']))
+                    continue
+                ctx.ob('C23-D1', name, callee, 'map_err', okm,
+                       detail='' if okm else 'the Result of %s (may return OperationCancelled) goes through map_err at %s whose closure turns every error into Error::%s without looking at it: a cancellation is re-labelled' % (
+                           callee.split('::')[-1], loc(mt['span']), '/'.join(str(x) for x in builds)), site=loc(t['span']))
             accepted_pass = set()
             for kind, detail, cb in cons:
                 if kind == 'passed' and passed_ok(prog, f2, cb, cancel_idx):
